@@ -392,9 +392,50 @@ def st_schema_c14(draw):
     count = 'NoGrpAA'
     fields.append({'num': count_num, 'name': count, 'type': 'NUMINGROUP', 'realm': None}); used.add(count_num)
     types = st.sampled_from(['STRING', 'INT', 'CHAR', 'PRICE', 'UTCTIMESTAMP', 'QTY', 'BOOLEAN'])
-    mode = draw(st.sampled_from(['collide2', 'collide2', 'collide3', 'extra_field', 'nested_vs_flat', 'disjoint']))
+    mode = draw(st.sampled_from(['collide2', 'collide2', 'collide3', 'extra_field', 'nested_vs_flat', 'disjoint', 'nested_collide', 'nested_collide', 'nested_required', 'nested_order', 'top_required', 'top_order']))
     defs = []            # list of element lists (group bodies)
     collide = False
+    if mode in ('nested_collide', 'nested_required', 'nested_order'):
+        # identical outer groups whose NESTED group differs between the messages: in member fields that collide under the hash, in a mandatory flag, or in member order
+        inner_num = draw(st.integers(39001, 39900))
+        fields.append({'num': inner_num, 'name': 'NoGrpBA', 'type': 'NUMINGROUP', 'realm': None}); used.add(inner_num)
+        outer = [['field', add(draw(fresh), draw(types)), True]] + [['field', add(draw(fresh), draw(types)), draw(st.booleans())] for _ in range(draw(st.integers(0, 2)))]
+        if mode == 'nested_collide':
+            for attempt in range(200):
+                a = draw(st.integers(1, 4000)); a2 = a ^ draw(st.integers(1, 7))
+                z = draw(st.integers(max(a, a2) + 1, 20000))
+                z2 = z ^ L(rothash(0, a)) ^ L(rothash(0, a2))
+                if a2 < 1 or {a, a2, z, z2} & used or len({a, a2, z, z2}) < 4 or z2 <= a2 or z2 >= 65536:
+                    continue
+                assert group_hash([a, z]) == group_hash([a2, z2])
+                collide = True
+                i1 = [['field', add(a, draw(types)), True], ['field', add(z, draw(types)), draw(st.booleans())]]
+                i2 = [['field', add(a2, draw(types)), True], ['field', add(z2, draw(types)), draw(st.booleans())]]
+                break
+            else:
+                mode = 'nested_required'
+        if mode == 'nested_required':
+            p, q = add(draw(fresh), draw(types)), add(draw(fresh), draw(types))
+            i1 = [['field', p, True], ['field', q, True]]
+            i2 = [['field', p, True], ['field', q, False]]
+        elif mode == 'nested_order':
+            p, q, r3 = add(draw(fresh), draw(types)), add(draw(fresh), draw(types)), add(draw(fresh), draw(types))
+            i1 = [['field', p, True], ['field', q, True], ['field', r3, False]]
+            i2 = [['field', q, True], ['field', p, True], ['field', r3, False]]
+        req_inner = draw(st.booleans())
+        at = draw(st.integers(1, len(outer)))
+        for inner in (i1, i2):
+            body = [list(e) for e in outer]
+            body.insert(at, ['group', 'NoGrpBA', req_inner, inner])
+            defs.append(body)
+        if draw(st.booleans()):
+            defs.append([list(e) if e[0] != 'group' else [e[0], e[1], e[2], [list(x) for x in e[3]]] for e in defs[draw(st.integers(0, 1))]])
+        msgs = []
+        for k, body in enumerate(defs):
+            extra = [['field', add(draw(fresh), draw(types)), draw(st.booleans())] for _ in range(draw(st.integers(0, 2)))]
+            els = extra + [['group', count, draw(st.booleans()), body]]
+            msgs.append({'name': ident(k, 'Msg'), 'msgtype': 'G%s' % chr(65 + k), 'cat': 'app', 'els': els})
+        return dedupe_messages({'fields': fields, 'comps': {}, 'msgs': msgs, 'family': 'c14', 'mode': mode, 'collide': collide})
     if mode in ('collide2', 'collide3'):
         k = 2 if mode == 'collide2' else 3
         for attempt in range(200):
@@ -433,6 +474,16 @@ def st_schema_c14(draw):
             fields.append({'num': inner_num, 'name': 'NoGrpBA', 'type': 'NUMINGROUP', 'realm': None}); used.add(inner_num)
             inner = [['field', add(draw(fresh), draw(types)), True]]
             b2 = [list(e) for e in b1] + [['group', 'NoGrpBA', draw(st.booleans()), inner]]
+        elif mode in ('top_required', 'top_order'):
+            # same member fields (hence the same structural hash): only a mandatory flag or the order differs
+            while len(b1) < 3:
+                b1.append(['field', add(draw(fresh.filter(lambda n: n not in base)), draw(types)), draw(st.booleans())])
+            b2 = [list(e) for e in b1]
+            if mode == 'top_required':
+                b2[-1][2] = not b2[-1][2]
+            else:
+                b2[0], b2[1] = b2[1], b2[0]
+                b1[0][2] = b1[1][2] = b2[0][2] = b2[1][2] = True
         elif mode == 'disjoint':
             other = draw(st.lists(fresh.filter(lambda n: n not in base), min_size=1, max_size=3, unique=True))
             b2 = [['field', add(t, draw(types)), i == 0 or draw(st.booleans())] for i, t in enumerate(other)]
